@@ -65,14 +65,39 @@ pub fn limit_address_space(bytes: u64) {
 
 pub fn cfg_from_mask(mask: u32) -> walrus::ModuleConfig {
     let mut c = walrus::ModuleConfig::new();
-    // generate_dwarf(true) implies preserve_code_transform, so the latter is set first
-    c.preserve_code_transform(mask & 64 != 0);
-    c.generate_dwarf(mask & 1 != 0);
-    c.generate_name_section(mask & 2 != 0);
-    c.generate_synthetic_names_for_anonymous_items(mask & 4 != 0);
-    c.strict_validate(mask & 8 != 0);
-    c.generate_producers_section(mask & 16 != 0);
-    c.only_stable_features(mask & 32 != 0);
+    // Every switch is first set to the opposite of what is wanted and then to the wanted value, the final
+    // values in an order that depends on the mask: a setter must not depend on what was set before it or
+    // disturb another switch. The one documented coupling is kept apart: generate_dwarf(true) implies
+    // preserve_code_transform, so the code-transform switch is set before the DWARF switch in both passes.
+    let set = |c: &mut walrus::ModuleConfig, bit: u32, on: bool| {
+        match bit {
+            64 => c.preserve_code_transform(on),
+            1 => c.generate_dwarf(on),
+            2 => c.generate_name_section(on),
+            4 => c.generate_synthetic_names_for_anonymous_items(on),
+            8 => c.strict_validate(on),
+            16 => c.generate_producers_section(on),
+            _ => c.only_stable_features(on),
+        };
+    };
+    for bit in [2u32, 32, 8, 64, 1, 16, 4] {
+        set(&mut c, bit, mask & bit == 0);
+    }
+    let mut rest = [2u32, 4, 8, 16, 32];
+    let r = (mask.wrapping_mul(2654435761) >> 7) as usize;
+    rest.rotate_left(r % 5);
+    if r & 1 == 1 {
+        rest.reverse();
+    }
+    // the pair (code transform, DWARF) goes before, between or after the others
+    let at = (r / 5) % 6;
+    let mut order: Vec<u32> = rest.to_vec();
+    order.insert(at.min(order.len()), 64);
+    let p = order.iter().position(|b| *b == 64).unwrap();
+    order.insert(p + 1 + ((r / 31) % (order.len() - p)), 1);
+    for bit in order {
+        set(&mut c, bit, mask & bit != 0);
+    }
     // bits beyond the seven boolean switches: an on_instr_loc callback (the ids handed to custom sections and
     // to the DWARF rewriter are then what the callback returns, not the input offsets)
     if mask & 128 != 0 {
